@@ -132,6 +132,9 @@ pub open spec fn bool_text(b: bool) -> Seq<char> { if b { "true"@ } else { "fals
 #[verifier::external_body]
 pub fn v_tail_vec(v: &Vec<String>, k: usize) -> (r: Vec<String>) requires k <= v@.len() ensures r@ == v@.subrange(k as int, v@.len() as int) { v[k..].to_vec() }
 // std functions small edits of the code tend to reach for (specifications as documented by std)
+// integer abs: overflows (panic in debug builds, wrap-around otherwise) exactly on the minimum value
+pub assume_specification [ isize::abs ] (x: isize) -> (r: isize) requires x != isize::MIN ensures r == (if x < 0 { -x } else { x as int });
+pub assume_specification [ i64::abs ] (x: i64) -> (r: i64) requires x != i64::MIN ensures r == (if x < 0 { -x } else { x as int });
 pub assume_specification<T, E> [ Result::<T, E>::unwrap_or ] (r: Result<T, E>, default: T) -> (res: T)
     ensures res == (match r { Ok(v) => v, Err(_) => default });
 pub assume_specification<T> [ Option::<T>::or ] (o: Option<T>, b: Option<T>) -> (res: Option<T>)
